@@ -32,8 +32,12 @@ type lockedBuf struct {
 	b  bytes.Buffer
 }
 
-func (l *lockedBuf) Write(p []byte) (int, error) { l.mu.Lock(); defer l.mu.Unlock(); return l.b.Write(p) }
-func (l *lockedBuf) String() string              { l.mu.Lock(); defer l.mu.Unlock(); return l.b.String() }
+func (l *lockedBuf) Write(p []byte) (int, error) {
+	l.mu.Lock()
+	defer l.mu.Unlock()
+	return l.b.Write(p)
+}
+func (l *lockedBuf) String() string { l.mu.Lock(); defer l.mu.Unlock(); return l.b.String() }
 
 func runC10(r *Run) {
 	r.rule = "hostile client input: packet streams with every type value, length fields 0…2^32−1 (below 8, huge), truncated headers, inner length fields shorter/longer than the body, before and after authorization; every ordering of the legacy IN/OUT requests; Authorization strings of every class through the NTLM and Basic handlers; NTLM messages truncated / with field offsets and lengths outside the message / wrong type against the real verifier; socket-buffer tuning on TLS, TCP and other connections; then the same against the real binary in {TLS on/off} × {buffers unset/set} with a liveness probe; non-trivial = every input; distinct by input"
